@@ -13,7 +13,8 @@ def core_tree(rng, depth):
     G = gen_compose
     if depth <= 0 or rng.random() < 0.12:
         return rng.choice([G.N("a"), G.N("b"), G.K(1), G.K("s"), G.K(2.5), G.K(None), G.K(True)])
-    k = rng.choice(["bin", "bin", "bin", "un", "bool", "cmp", "if", "lam", "wal", "attr", "call", "call", "sub", "list", "tuple", "set", "dict", "comp", "comp"])
+    k = rng.choice(["bin", "bin", "bin", "un", "bool", "cmp", "if", "lam", "wal", "attr", "call", "call", "sub", "list", "tuple", "set", "dict", "comp", "comp",
+                    "gencall"])
     star = lambda x: ast.Starred(value=x, ctx=G.L) if rng.random() < 0.2 else x
     r = lambda: core_tree(rng, depth - 1)
     if k == "bin":
@@ -51,6 +52,11 @@ def core_tree(rng, depth):
     if k == "dict":
         n = rng.randint(0, 3)
         return ast.Dict(keys=[(None if rng.random() < 0.25 else r()) for _ in range(n)], values=[r() for _ in range(n)])
+    if k == "gencall":
+        # f(x for x in y): a generator expression as the bare only argument
+        gens = [ast.comprehension(target=G.S("i"), iter=r(), ifs=[r() for _ in range(rng.randint(0, 2))], is_async=0)
+                for _ in range(rng.randint(1, 2))]
+        return ast.Call(func=r(), args=[ast.GeneratorExp(elt=r(), generators=gens)], keywords=[])
     if k == "comp":
         def tgt():
             return G.S("i") if rng.random() < 0.6 else ast.Tuple(elts=[G.S("j"), G.S("k")], ctx=ast.Store())
@@ -77,7 +83,7 @@ def run(chk, build, replay=None):
         "C03: Parse.pc is a hand-written model of CPython's expression parser on the operator core (tokens from CPython's "
         "tokenizer); it is validated against ast.parse on the unparser's outputs and on standard-library expressions of "
         "the core; literals are opaque tokens (their spelling is C04's theorem)",
-        "C03: outside the core of Parse.v (generator expressions, f-strings, yield/await, nested comprehension targets) the "
+        "C03: outside the core of Parse.v (generator expressions as operands, f-strings, yield/await, nested comprehension targets) the "
         "round trip is decided by CPython's own parser on every generated composition (support)",
     ]
     sys.setrecursionlimit(20000)
@@ -112,6 +118,10 @@ def run(chk, build, replay=None):
             add("right-edge trees", gen_compose.right_edge_tree(rng, rng.randint(3, 14)))
         for _ in range(20000 if big else 2000):
             add("core trees", core_tree(rng, rng.randint(2, 7)))
+        for _ in range(2000 if big else 200):
+            gens = [ast.comprehension(target=gen_compose.S("i"), iter=core_tree(rng, 3), ifs=[core_tree(rng, 2) for _ in range(rng.randint(0, 2))],
+                                      is_async=0) for _ in range(rng.randint(1, 2))]
+            add("core trees", ast.GeneratorExp(elt=core_tree(rng, rng.randint(1, 4)), generators=gens))
         for fn, e in corpus.stdlib_expressions(None if big else 60, seed=chk.seed + 3):
             add("standard library expressions", e)
     chk.coverage["input_distribution"] = dist
@@ -142,7 +152,7 @@ def run(chk, build, replay=None):
         chk.add_broken("correspondence", f"Unparse.unparse and expr_unparse disagree on {len(diffs)} expressions",
                        __import__("json").dumps(diffs[0]))
     # 3. the core: printer of Parse.v = unparser tokens; the parser reads them back (executable form of the theorem)
-    core_es = [e for e in exprs if coretok.core_py(e)]
+    core_es = [e for e in exprs if coretok.core_top_py(e)]
     core_sample = core_es if len(core_es) <= 2500 else rng.sample(core_es, 2500 if not big else 15000)
     lines = []
     for e in core_sample:
@@ -191,7 +201,7 @@ def run(chk, build, replay=None):
     # 4. the parser model is CPython's parser: tokens (CPython's tokenizer) of the outputs and of library expressions
     plines = []
     for e, t in zip(exprs, texts):
-        if t is None or not coretok.core_py(e):
+        if t is None or not coretok.core_top_py(e):
             continue
         try:
             back = ast.parse(t, mode="eval").body
